@@ -34,7 +34,7 @@ from common import Case
 FAMILY = "bounds"
 CORR = "Bounds"
 FAMNUM = 9
-ORACLES = {"prop_ok": 0, "tie_ok": 1, "mc_ok": 2}
+ORACLES = {"prop_ok": 0, "tie_ok": 1, "mc_ok": 2, "mc_ok5": 3}
 OPNAMES = {1: "hll_fn", 2: "cpc_fn", 3: "theta_fn", 4: "hll_sketch", 5: "cpc_sketch", 6: "theta_sketch", 7: "hll_parts", 8: "monte_carlo"}
 
 
